@@ -130,31 +130,15 @@ FORMS = ["<% ctx().nope %>", "<% ctx(nope) %>", "<% ctx('nope') %>", "{{ ctx().n
          '<% ctx("nope") %>', '{{ ctx("nope") }}']
 LATE = "zz_late"
 
-# known candidates: confirmed cases in which inspection does not report a fault of a listed class or an accepted
-# definition raises an internal error.  id -> predicate(violation dict); exactly those are reported as known.
-def _kc_inspect_keyerror(v):
-    """inspect() itself raises KeyError(<undefined target>) from tasks.in_cycle: a task with two or more inbound
-    transitions (a split task) leads to an undefined task, and in_cycle walks into the undefined name."""
-    if v.get("kind") != "raised" or v.get("exc") != "KeyError" or "in_cycle" not in (v.get("frames") or []):
-        return False
-    tasks = (v.get("definition") or {}).get("tasks") or {}
-    undefined = set(d for ts in tasks.values() for tr in (ts.get("next") or []) for d in _targets(tr)
-                    if d not in tasks and d not in COMMANDS)
-    return v.get("exc_arg") in undefined
-
-
+# known candidates: confirmed cases in which an accepted definition raises an internal error under a conformant
+# history.  id -> predicate(violation dict); exactly those are reported as known.  (Violations after the trigger
+# of a known finding that lists C15 in known_findings.json -- D1, D8, D21, D24, D25 -- are attributed to that finding
+# through harness.findings.TRIGGERS, as in harness/props/common.py.)
 def _kc_rerun_inflight(v):
     """a rerun request naming an execution whose action is still in flight is accepted (not refused): the new
     record has no status, and the report of the in-flight action then raises KeyError('status')."""
     return (v.get("kind") == "internal-error" and (v.get("raised") or [None])[0] == "KeyError"
             and bool(v.get("rerun_of_active_execution")) and bool(v.get("record_without_status")))
-
-
-def _kc_d8(v):
-    """known finding D8 (an accepted rerun re-offers an engine command to the provider): the provider's report
-    for the offered command raises TypeError."""
-    return (v.get("kind") == "internal-error" and (v.get("raised") or [None])[0] == "TypeError"
-            and bool(v.get("d8_trigger")) and v.get("event_task") in COMMANDS)
 
 
 def _kc_items_after_reset(v):
@@ -166,18 +150,17 @@ def _kc_items_after_reset(v):
 
 def _kc_restart_unstaged(v):
     """an in-flight action whose record is already completed (it reported canceling/pausing and then paused or
-    pending, which the task machine maps to a completed status) reports a starting status: the conductor takes it
-    for a new cycle iteration, finds no staged entry and raises TypeError."""
+    pending, which the task machine maps to a completed status) reports one of statuses.STARTING_STATUSES
+    (requested .. running, pending): the conductor takes it for a new cycle iteration, finds no staged entry and
+    raises TypeError."""
     return (v.get("kind") == "internal-error" and (v.get("raised") or [None])[0] == "TypeError"
             and v.get("pre_status") in ("succeeded", "failed", "timeout", "abandoned", "canceled")
-            and v.get("event_status") in ("requested", "scheduled", "delayed", "running")
+            and v.get("event_status") in ("requested", "scheduled", "delayed", "running", "pending")
             and v.get("staged_entry") is False and v.get("event_task") not in COMMANDS)
 
 
 KNOWN_CANDIDATES = {
-    "C15-inspect-keyerror-undefined-after-split": _kc_inspect_keyerror,
     "C15-rerun-of-inflight-task": _kc_rerun_inflight,
-    "C15-D8-command-offered": _kc_d8,
     "C15-item-report-after-retry-reset": _kc_items_after_reset,
     "C15-starting-status-after-completed": _kc_restart_unstaged,
 }
@@ -1029,7 +1012,7 @@ def _exec_case(args):
 
 def run(ctx):
     tier, seed = ctx["tier"], ctx["seed"]
-    nbase = 32 if tier == "quick" else 400
+    nbase = 32 if tier == "quick" else 280
     nexec = 320 if tier == "quick" else 6000
     base = (seed * 1000003 + zlib.crc32(b"C15")) % (2 ** 31)
     known_ids = [k["id"] for k in ctx["known"].get("findings", []) if "C15" in k.get("properties", [])]
